@@ -167,7 +167,7 @@ def order_trace(workdir, name, trace_path, check_bound=True, timeout=1200):
     return r
 
 
-def validate_records(workdir, name, trace_module, records, constants="", timeout=1500, max_bad=25):
+def validate_records(workdir, name, trace_module, records, constants="", timeout=400, max_bad=25):
     """One TLC step per record (trace_module must define TSpec/Progress/Accepted).  Returns
     (indices of rejected records, total distinct states, errors) -- after a rejection the remainder is
     validated again so that every failing record is found, not only the first."""
